@@ -98,6 +98,27 @@ def batch(args):
         if res.harness_error:
             out['harness_error'] = {'run_seed': run_seed, 'trace': res.harness_error}
             break
+        if (args.get('no_minimise') or os.environ.get('SIMLAB_MODE') == 'nomin ') and res.violation:
+            # exact re-execution of a group's runs (nothing recorded, nothing minimised in-process): the replay file is
+            # the list of run seeds itself
+            v = res.violation
+            k = [sd for _, sd in args['runs']].index(run_seed)
+            path = os.path.join(args['out_dir'], '%d.json' % run_seed)
+            doc = {
+                'kind': 'seed-prefix', 'property': prop, 'invariant': v['invariant'], 'run_seed': run_seed,
+                'batch_args': args,
+                'hashseed': hashseed, 'tier': tier, 'excluded': list(excluded), 'runs': args['runs'][:k + 1],
+                'swarm': res.swarm, 'ops': res.ops, 'original_len': len(res.ops), 'minimised_len': len(res.ops),
+                'expect': {'invariant': v['invariant'], 'step': v['step'], 'message': v['message'],
+                           'event_digest': res.event_digest},
+                'pmutt_repo': os.environ.get('SIMLAB_REPO', '/repo'),
+            }
+            os.makedirs(args['out_dir'], exist_ok=True)
+            with open(path, 'w') as f:
+                json.dump(doc, f, indent=1)
+            out['violation'] = {'run_seed': run_seed, 'replay': path, 'invariant': v['invariant'],
+                                'message': v['message'], 'original_len': len(res.ops), 'minimised_len': len(res.ops)}
+            break
         if record_all and res.violation:
             v = res.violation
             path = os.path.join(args['out_dir'], '%d.json' % run_seed)
@@ -173,6 +194,8 @@ def replay(path):
     hashseed = int(os.environ.get('PYTHONHASHSEED', '0') or 0)
     if hashseed != doc['hashseed']:
         raise SystemExit('HARNESS-ERROR replay needs PYTHONHASHSEED=%d' % doc['hashseed'])
+    if doc.get('kind') == 'seed-prefix':
+        raise SystemExit('HARNESS-ERROR a seed-prefix replay is executed by the driver (./check --replay), as a batch')
     faulthandler.dump_traceback_later(600, exit=True)
     for pre in doc.get('prelude') or []:
         # earlier runs of the same process: what they leave behind in the library (module globals, default
